@@ -141,6 +141,7 @@ const (
 	kAdd = iota
 	kBind
 	kRead
+	kGLV // GetLeafValue as one atomic step (strong model, see judge)
 	kRootVal
 	kUpd
 	kDel
@@ -150,11 +151,12 @@ const (
 
 // handle cell encoding inside the state vector
 const (
-	hUnbound = 0
-	hNil     = 1
-	hBranch  = 2
-	hDead    = 3
-	hGenBase = 4
+	hUnbound  = 0
+	hNil      = 1
+	hBranch   = 2
+	hDead     = 3
+	hAttached = 4 // designates the node currently filed at the handle's path
+	hDetached = 5 // hDetached+k: designates an unfiled node; k = smallest live handle on that node
 )
 
 type cop struct {
@@ -163,14 +165,13 @@ type cop struct {
 	p       int // path id
 	match   []int
 	val     uint16 // value id written
-	gen     uint16 // generation an add would create
 	h       int    // handle index
 	cond    bool   // condition "even"
 	lastUse bool   // no later operation uses handle h
 	// recorded results
 	err     bool
 	got     uint16
-	node    int // -1 unknown, else hNil/hBranch/hGenBase(leaf)
+	node    int // -1 unknown, else hNil/hBranch/hAttached(leaf)
 	outSet  []int
 	outVals []uint16
 	outKV   [][2]int // (path id, value id), sorted by path id
@@ -179,17 +180,17 @@ type cop struct {
 
 type compiled struct {
 	h        *History
+	strong   bool // GetLeafValue is one atomic step
 	paths    [][]string
 	pathID   map[string]int
 	pre, sub [][]int // proper prefixes / proper extensions inside the universe
 	valOf    []int   // value id -> value
 	valID    map[int]uint16
 	even     []bool
-	nGen     int
 	nHnd     int
+	hpath    []int   // handle -> path id
+	hat      [][]int // path id -> handles taken there (ascending)
 	ops      []*cop
-	// writers[v] = indices of ops that wrote value v (add or hupd)
-	writers map[int][]int
 }
 
 func (c *compiled) pid(p []string) int {
@@ -217,8 +218,10 @@ func (c *compiled) vid(v int) uint16 {
 	return id
 }
 
-func compile(h *History) (*compiled, error) {
-	c := &compiled{h: h, pathID: map[string]int{}, valID: map[int]uint16{}, valOf: []int{0}, even: []bool{false}, writers: map[int][]int{}}
+// compile indexes the history. strong: GetLeafValue is modelled as one atomic
+// read (accepts a subset of what the exact two-step model accepts).
+func compile(h *History, strong bool) (*compiled, error) {
+	c := &compiled{h: h, strong: strong, pathID: map[string]int{}, valID: map[int]uint16{}, valOf: []int{0}, even: []bool{false}}
 	if len(h.Ops) > 20000 {
 		return nil, fmt.Errorf("history too long (%d ops)", len(h.Ops))
 	}
@@ -237,7 +240,6 @@ func compile(h *History) (*compiled, error) {
 		}
 		if o.Kind == "add" || o.Kind == "hupd" {
 			c.vid(o.Val)
-			c.writers[o.Val] = append(c.writers[o.Val], i)
 		}
 	}
 	n := len(c.paths)
@@ -250,6 +252,7 @@ func compile(h *History) (*compiled, error) {
 			}
 		}
 	}
+	c.hat = make([][]int, n)
 	matchOf := func(pat []string) []int {
 		var m []int
 		for i, p := range c.paths {
@@ -260,7 +263,12 @@ func compile(h *History) (*compiled, error) {
 		return m
 	}
 	hidx := map[int]int{}
-	newH := func() int { c.nHnd++; return c.nHnd - 1 }
+	newH := func(p int) int {
+		c.nHnd++
+		c.hpath = append(c.hpath, p)
+		c.hat[p] = append(c.hat[p], c.nHnd-1)
+		return c.nHnd - 1
+	}
 	lastUse := map[int]*cop{}
 	// program order = order of Call inside one goroutine; process in Call order
 	order := make([]int, len(h.Ops))
@@ -275,24 +283,27 @@ func compile(h *History) (*compiled, error) {
 		}
 		switch o.Kind {
 		case "add":
-			c.nGen++
-			c.ops = append(c.ops, &cop{kind: kAdd, src: i, p: c.pid(o.Path), val: c.vid(o.Val), gen: uint16(c.nGen), err: o.Err != ""})
+			c.ops = append(c.ops, &cop{kind: kAdd, src: i, p: c.pid(o.Path), val: c.vid(o.Val), err: o.Err != ""})
 		case "glv":
 			got, bad := c.obsVal(o.Got)
 			if len(o.Path) == 0 {
 				c.ops = append(c.ops, &cop{kind: kRootVal, src: i, p: c.pid(o.Path), got: got, bad: bad})
 				break
 			}
-			hx := newH()
+			if strong {
+				c.ops = append(c.ops, &cop{kind: kGLV, src: i, p: c.pid(o.Path), got: got, bad: bad})
+				break
+			}
+			hx := newH(c.pid(o.Path))
 			c.ops = append(c.ops, &cop{kind: kBind, src: i, p: c.pid(o.Path), h: hx, node: -1})
 			c.ops = append(c.ops, &cop{kind: kRead, src: i, h: hx, got: got, bad: bad, lastUse: true})
 		case "getleaf":
 			if _, dup := hidx[o.H]; dup {
 				return nil, fmt.Errorf("op %d binds handle %d a second time", i, o.H)
 			}
-			hx := newH()
+			hx := newH(c.pid(o.Path))
 			hidx[o.H] = hx
-			node := map[string]int{"nil": hNil, "leaf": hGenBase, "branch": hBranch}[o.Node]
+			node := map[string]int{"nil": hNil, "leaf": hAttached, "branch": hBranch}[o.Node]
 			if node == 0 {
 				return nil, fmt.Errorf("op %d: unknown node kind %q", i, o.Node)
 			}
@@ -304,7 +315,7 @@ func compile(h *History) (*compiled, error) {
 			if !ok {
 				return nil, fmt.Errorf("op %d uses handle %d before any GetLeaf bound it", i, o.H)
 			}
-			if lastUse[hx].node != hGenBase && lastUse[hx].kind == kBind {
+			if lastUse[hx].kind == kBind && lastUse[hx].node != hAttached {
 				return nil, fmt.Errorf("op %d uses handle %d which is not a leaf handle", i, o.H)
 			}
 			lastUse[hx].lastUse = false
@@ -365,7 +376,7 @@ func compile(h *History) (*compiled, error) {
 			return nil, fmt.Errorf("op %d: unknown kind %q", i, o.Kind)
 		}
 	}
-	if c.nGen+hGenBase > 65000 || len(c.valOf) > 65000 {
+	if c.nHnd+hDetached > 65000 || len(c.valOf) > 65000 {
 		return nil, fmt.Errorf("history too large for the 16-bit state encoding")
 	}
 	return c, nil
@@ -385,15 +396,26 @@ func (c *compiled) obsVal(v int) (uint16, string) {
 
 // ---- the sequential model ---------------------------------------------------------------------
 
-// lstate is gen[paths] | val[generations+1] | hnd[handles], immutable once built.
+// lstate is the model state, immutable once built:
+//
+//	tv[path]   value filed at the path (0 = no leaf)
+//	hc[handle] what the handle designates (see the h* constants)
+//	hv[handle] value of the unfiled node whose smallest live handle this is
+//
+// Node identity ("generation") is not numbered: all handles attached at a path
+// designate the node filed there now; a delete moves them, as one group, to an
+// unfiled node that keeps the value and stays writable and readable through
+// them; a later Add files a new node that none of them designates. A node
+// without live handles is dropped, so equal futures mean equal states.
 type lstate struct {
 	a    []uint16
 	hash uint64
 }
 
-func (c *compiled) offVal() int { return len(c.paths) }
-func (c *compiled) offHnd() int { return len(c.paths) + c.nGen + 1 }
+func (c *compiled) offHC() int { return len(c.paths) }
+func (c *compiled) offHV() int { return len(c.paths) + c.nHnd }
 
+//go:norace
 func mkState(a []uint16) *lstate {
 	h := uint64(14695981039346656037)
 	for _, x := range a {
@@ -404,11 +426,13 @@ func mkState(a []uint16) *lstate {
 }
 
 func (c *compiled) init() *lstate {
-	return mkState(make([]uint16, len(c.paths)+c.nGen+1+c.nHnd))
+	return mkState(make([]uint16, len(c.paths)+2*c.nHnd))
 }
 
+//go:norace
 func (s *lstate) clone() []uint16 { return append([]uint16(nil), s.a...) }
 
+//go:norace
 func (c *compiled) interior(a []uint16, p int) bool {
 	for _, q := range c.sub[p] {
 		if a[q] != 0 {
@@ -418,6 +442,7 @@ func (c *compiled) interior(a []uint16, p int) bool {
 	return false
 }
 
+//go:norace
 func (c *compiled) addOK(a []uint16, p int) bool {
 	for _, q := range c.pre[p] {
 		if a[q] != 0 {
@@ -427,91 +452,129 @@ func (c *compiled) addOK(a []uint16, p int) bool {
 	return !c.interior(a, p)
 }
 
+// retire ends the life of handle h in n (a private copy).
+//
+//go:norace
+func (c *compiled) retire(n []uint16, h int) {
+	hc, hv := c.offHC(), c.offHV()
+	cell := n[hc+h]
+	n[hc+h] = hDead
+	if cell < hDetached || int(cell-hDetached) != h {
+		return
+	}
+	// h led a group of handles on an unfiled node: hand the node to the next one
+	v := n[hv+h]
+	n[hv+h] = 0
+	next := -1
+	for _, k := range c.hat[c.hpath[h]] {
+		if n[hc+k] == cell {
+			if next < 0 {
+				next = k
+				n[hv+k] = v
+			}
+			n[hc+k] = uint16(hDetached + next)
+		}
+	}
+}
+
+// unfile removes the leaf at p in n (a private copy), detaching its handles.
+//
+//go:norace
+func (c *compiled) unfile(n []uint16, p int) {
+	hc, hv := c.offHC(), c.offHV()
+	lead := -1
+	for _, k := range c.hat[p] {
+		if n[hc+k] == hAttached {
+			if lead < 0 {
+				lead = k
+				n[hv+k] = n[p]
+			}
+			n[hc+k] = uint16(hDetached + lead)
+		}
+	}
+	n[p] = 0
+}
+
 // step is the sequential specification; it never mutates s.
+//
+//go:norace
 func (c *compiled) step(s *lstate, o *cop) (bool, *lstate) {
 	if o.bad != "" {
 		return false, s
 	}
 	a := s.a
-	ov, oh := c.offVal(), c.offHnd()
+	hc, hv := c.offHC(), c.offHV()
 	switch o.kind {
 	case kAdd:
 		ok := c.addOK(a, o.p)
 		if ok == o.err {
 			return false, s
 		}
-		if !ok {
+		if !ok || a[o.p] == o.val {
 			return true, s
 		}
 		n := s.clone()
-		if n[o.p] == 0 {
-			n[o.p] = o.gen
-		}
-		n[ov+int(n[o.p])] = o.val
+		n[o.p] = o.val
 		return true, mkState(n)
 	case kBind:
 		cell := uint16(hNil)
 		switch {
 		case a[o.p] != 0:
-			cell = hGenBase + a[o.p]
+			cell = hAttached
 		case c.interior(a, o.p):
 			cell = hBranch
 		}
-		if o.node >= 0 {
-			want := o.node
-			got := int(cell)
-			if got > hGenBase {
-				got = hGenBase
-			}
-			if got != want {
-				return false, s
-			}
+		if o.node >= 0 && int(cell) != o.node {
+			return false, s
 		}
 		if o.lastUse {
 			cell = hDead
 		}
 		n := s.clone()
-		n[oh+o.h] = cell
+		n[hc+o.h] = cell
 		return true, mkState(n)
-	case kRead:
-		cell := a[oh+o.h]
-		var want uint16
+	case kRead, kUpd:
+		cell := a[hc+o.h]
+		var at int
 		switch {
 		case cell == hUnbound || cell == hDead:
-			return false, s // the lookup half has not happened yet
-		case cell >= hGenBase:
-			want = a[ov+int(cell-hGenBase)]
+			return false, s // the lookup has not happened yet
+		case cell == hAttached:
+			at = c.hpath[o.h]
+		case cell >= hDetached:
+			at = hv + int(cell-hDetached)
+		default: // nil or branch: reads nil (GetLeafValue); the harness never writes through it
+			if o.kind == kUpd {
+				return false, s
+			}
+			at = -1
 		}
-		if want != o.got {
-			return false, s
-		}
-		if !o.lastUse {
-			return true, s
+		if o.kind == kRead {
+			var want uint16
+			if at >= 0 {
+				want = a[at]
+			}
+			if want != o.got {
+				return false, s
+			}
+			if !o.lastUse {
+				return true, s
+			}
 		}
 		n := s.clone()
-		n[oh+o.h] = hDead
-		return true, mkState(n)
-	case kRootVal:
-		var want uint16
-		if g := a[o.p]; g != 0 {
-			want = a[ov+int(g)]
+		if o.kind == kUpd {
+			n[at] = o.val
 		}
-		return want == o.got, s
-	case kUpd:
-		cell := a[oh+o.h]
-		if cell < hGenBase {
-			return false, s // the harness only updates through leaf handles
-		}
-		n := s.clone()
-		n[ov+int(cell-hGenBase)] = o.val
 		if o.lastUse {
-			n[oh+o.h] = hDead
+			c.retire(n, o.h)
 		}
 		return true, mkState(n)
+	case kGLV, kRootVal:
+		return a[o.p] == o.got, s
 	case kDel, kWalkDel:
 		var rm []int
 		for _, p := range o.match {
-			if g := a[p]; g != 0 && (!o.cond || c.even[a[ov+int(g)]]) {
+			if v := a[p]; v != 0 && (!o.cond || c.even[v]) {
 				rm = append(rm, p)
 			}
 		}
@@ -530,7 +593,7 @@ func (c *compiled) step(s *lstate, o *cop) (bool, *lstate) {
 			}
 			vs := make([]uint16, len(rm))
 			for i, p := range rm {
-				vs[i] = a[ov+int(a[p])]
+				vs[i] = a[p]
 			}
 			sort.Slice(vs, func(i, j int) bool { return vs[i] < vs[j] })
 			for i := range vs {
@@ -544,17 +607,17 @@ func (c *compiled) step(s *lstate, o *cop) (bool, *lstate) {
 		}
 		n := s.clone()
 		for _, p := range rm {
-			n[p] = 0
+			c.unfile(n, p)
 		}
 		return true, mkState(n)
 	case kSnap:
 		i := 0
 		for _, p := range o.match {
-			g := a[p]
-			if g == 0 {
+			v := a[p]
+			if v == 0 {
 				continue
 			}
-			if i >= len(o.outKV) || o.outKV[i][0] != p || o.outKV[i][1] != int(a[ov+int(g)]) {
+			if i >= len(o.outKV) || o.outKV[i][0] != p || o.outKV[i][1] != int(v) {
 				return false, s
 			}
 			i++
@@ -566,12 +629,29 @@ func (c *compiled) step(s *lstate, o *cop) (bool, *lstate) {
 
 func (c *compiled) content(s *lstate) string {
 	var kv []KV
-	for p, g := range s.a[:len(c.paths)] {
-		if g != 0 {
-			kv = append(kv, KV{c.paths[p], c.valOf[s.a[c.offVal()+int(g)]]})
+	for p, v := range s.a[:len(c.paths)] {
+		if v != 0 {
+			kv = append(kv, KV{c.paths[p], c.valOf[v]})
 		}
 	}
 	return kvstr(kv)
+}
+
+//go:norace
+func stateEqual(x, y interface{}) bool {
+	a, b := x.(*lstate), y.(*lstate)
+	if a == b {
+		return true
+	}
+	if a.hash != b.hash || len(a.a) != len(b.a) {
+		return false
+	}
+	for i := range a.a {
+		if a.a[i] != b.a[i] {
+			return false
+		}
+	}
+	return true
 }
 
 func (c *compiled) model() porcupine.Model {
@@ -581,22 +661,8 @@ func (c *compiled) model() porcupine.Model {
 			ok, n := c.step(state.(*lstate), in.(*cop))
 			return ok, n
 		},
-		Equal: func(x, y interface{}) bool {
-			a, b := x.(*lstate), y.(*lstate)
-			if a == b {
-				return true
-			}
-			if a.hash != b.hash || len(a.a) != len(b.a) {
-				return false
-			}
-			for i := range a.a {
-				if a.a[i] != b.a[i] {
-					return false
-				}
-			}
-			return true
-		},
-		Hash: func(x interface{}) uint64 { return x.(*lstate).hash },
+		Equal: stateEqual,
+		Hash:  func(x interface{}) uint64 { return x.(*lstate).hash },
 	}
 }
 
@@ -616,6 +682,16 @@ type hverdict struct {
 	inconclusive string
 	linTime      time.Duration
 	linOps       int
+	twoStep      bool // the exact two-step GetLeafValue model had to be consulted
+}
+
+func hasKind(h *History, k string) bool {
+	for i := range h.Ops {
+		if h.Ops[i].Kind == k {
+			return true
+		}
+	}
+	return false
 }
 
 // judge applies all history oracles. A porcupine timeout is inconclusive, never a violation.
@@ -628,7 +704,7 @@ func judge(h *History, timeout time.Duration) (v hverdict) {
 	if h.Panic != "" {
 		return hverdict{class: "panic", msg: "an operation panicked: " + h.Panic}
 	}
-	c, err := compile(h)
+	c, err := compile(h, true)
 	if err != nil {
 		return hverdict{inconclusive: "malformed history: " + err.Error()}
 	}
@@ -644,10 +720,23 @@ func judge(h *History, timeout time.Duration) (v hverdict) {
 	if cl, msg := intervalRule(h); cl != "" {
 		return hverdict{class: cl, msg: msg}
 	}
+	// First the strong model (GetLeafValue atomic): whatever it explains, the
+	// exact model explains too (run the lookup and the read back to back). Only
+	// when it does not say Ok is the exact two-step model consulted; that one
+	// alone can call a history illegal.
+	t0 := time.Now()
 	ops := c.operations()
 	v.linOps = len(ops)
-	t0 := time.Now()
 	res := porcupine.CheckOperationsTimeout(c.model(), ops, timeout)
+	if res != porcupine.Ok && hasKind(h, "glv") {
+		v.twoStep = true
+		if c, err = compile(h, false); err != nil {
+			return hverdict{inconclusive: "malformed history: " + err.Error()}
+		}
+		ops = c.operations()
+		v.linOps = len(ops)
+		res = porcupine.CheckOperationsTimeout(c.model(), ops, timeout)
+	}
 	v.linTime = time.Since(t0)
 	switch res {
 	case porcupine.Ok:
